@@ -420,6 +420,25 @@ def eval_groupby(item):
                 nested_key=nested, exc=type(e).__name__)
             continue
         nt.add((json.dumps(key), default is None, len(groups)))
+        # grouping must not change what the cursor itself (or the filter object the caller passed) selects
+        try:
+            after_ids = sorted(j.id for j in cur)
+            if after_ids != sorted(selected) or len(cur) != len(selected):
+                bad("groupby-changes-cursor", f"after groupby({key!r}, default={default!r}) the cursor built from {filt} yields "
+                    f"{after_ids} (len {len(cur)}), it selected {sorted(selected)}", [key, default, filt], sorted(selected), after_ids)
+            with _quiet():
+                again = [(canon.plain(l) if not isinstance(l, tuple) else tuple(canon.plain(x) for x in l), [j.id for j in g])
+                         for l, g in cur.groupby("a", default=-7)]
+                fresh = [(canon.plain(l) if not isinstance(l, tuple) else tuple(canon.plain(x) for x in l), [j.id for j in g])
+                         for l, g in signac.Project(d).find_jobs(filt).groupby("a", default=-7)]
+            if again != fresh:
+                bad("groupby-changes-cursor", f"a second groupby on the cursor already grouped by {key!r} gives {again}, a fresh "
+                    f"cursor gives {fresh}", [key, default, filt], fresh, again)
+        except TypeError:
+            pass  # unsortable labels for the probe key: outside the domain
+        except Exception as e:  # noqa
+            bad("groupby-changes-cursor", f"re-using the cursor after groupby({key!r}) raised {type(e).__name__}: {e}",
+                [key, default, filt], None, repr(e))
         members = [j for _, g in groups for j in g]
         if len(members) != len(set(members)):
             bad("groupby-not-disjoint", f"a job appears in two groups: {groups}", [key, default, filt], None, groups)
